@@ -171,6 +171,12 @@ def run(ctx):
                     if not good and kind == 'layers' and b.name == AF + 'frame_image':
                         good = a[0] == 'field' and a[2] == '0' and a[1][0] == 'next' and I.get('I1')[0]
                         why.append('slot index of a stored cel (I1)')
+                    if not good and kind == 'layers' and b.name.startswith(AF + 'frame_image::{closure') and a == ('field', ('param', 2, None), '0'):
+                        # .. the same slot index, seen by a closure that filters the cels of the frame (`frame_cels(f).filter(|(id, _)| ..)`)
+                        src = q.closure_item_source(fx, b)
+                        good = src is not None and src[0] == 'call' and src[1] == 'asefile::cel::CelsData::frame_cels' and I.get('I1')[0]
+                        if good:
+                            why.append('slot index of a stored cel (I1), as the item of frame_cels(..).filter(..)')
                     if not good and kind == 'layers' and b.name == AF + 'write_cel':
                         good = field_path(a)[1][-2:] == ['data', 'layer_index'] and I.get('I1')[0]
                         why.append('layer_index of a stored cel = its slot (I1, C19 R3)')
@@ -415,8 +421,22 @@ def discharge(ctx, I, s, handles, need):
                 some_defs = [(bb_, t_) for (l_, pj, t_, bb_, sp) in q.defs_in(tb, tb.cfg.reach) if l_ == 0 and not pj and t_[0] == 'agg' and t_[2] == 'Some']
                 some_ok = len(some_defs) == 1
                 if some_ok:
+                    import poly as PL
                     g2 = assert_guards(tb, some_defs[0][0])
-                    some_ok = sorted((op, show(a_), show(c_)) for op, a_, c_ in g2) == sorted([('Lt', 'param:x', 'param:self.width'), ('Lt', 'param:y', 'param:self.height')])
+                    px_, py_ = tb.param_index('x'), tb.param_index('y')
+
+                    def kind_of(op, a_, c_):
+                        # compared up to value-preserving widening (`x as i64 < self.width as i64`, a shared i64 helper inlined)
+                        a_, c_ = PL.canon(a_), PL.canon(c_)
+                        for pi_, nm_ in ((px_, 'width'), (py_, 'height')):
+                            if pi_ is not None and a_ == ('param', pi_, None):
+                                if op == 'Lt' and is_param_path(c_, 1, [nm_]):
+                                    return nm_
+                                if op == 'Ge' and q.const_val(c_) == 0:
+                                    return 'lo'        # always true for an unsigned coordinate
+                        return 'other'
+                    kinds = [kind_of(*g_) for g_ in g2]
+                    some_ok = 'other' not in kinds and 'width' in kinds and 'height' in kinds
                 ok = ok and some_ok
             return U('U3', ok, 'tile(tile_x, tile_y) with tile_x in 0..width(), tile_y in 0..height() of the same tilemap: never None')
         if kind == 'bounds':
@@ -517,9 +537,14 @@ def discharge(ctx, I, s, handles, need):
         import poly as PL
         p_ = PL.poly(at[1])
 
+        tiles_of = PL.canon(at[0][1]) if at[0][0] == 'field' and at[0][2] == 'tiles' else None
+
         def dim(t, nm):
             t = PL.canon(t)
-            return (t[0] == 'call' and t[1] == 'asefile::tilemap::TilemapData::' + nm) or is_param_path(t, 1, [nm])
+            # the accessor, the field of self (inside TilemapData), or the field of the very tilemap data whose tiles are indexed
+            # (a TilemapData helper inlined into Tilemap::tile)
+            return (t[0] == 'call' and t[1] == 'asefile::tilemap::TilemapData::' + nm) or is_param_path(t, 1, [nm]) or \
+                (t[0] == 'field' and t[2] == nm and tiles_of is not None and t[1] == tiles_of)
         okg = False
         wat = [a for k in p_ if len(k) == 2 for a in k if dim(a, 'width')]
         if wat and all(len(k) in (1, 2) for k in p_):
@@ -562,7 +587,7 @@ def discharge(ctx, I, s, handles, need):
             ok_, why = need('I7')
             return U('U4', ok_, 'Tileset<Pixels> always has pixels: ' + why)
     if fn == AF + 'write_cel':
-        if kind == 'panic:panic':
+        if kind in ('panic:panic', 'panic:unreachable'):     # the same unconditional stop, whichever macro spells it
             g_ = q.guards(b, s.bb)
             linked = any(c_[0] == 'discr' and any(x[0] == 'call' and x[1] == 'asefile::cel::CelsData::cel' for x in walk(c_)) for c_, v_, a_ in g_)
             if linked:
